@@ -51,7 +51,8 @@ func kickBody(c *nd.Ctx) nd.Result {
 		client := &muc.Client{HandleUserPresence: func(p stanza.Presence, i muc.Item) { userPresences++ }}
 		seenSentinel := map[string]bool{}
 		sentinel := func(m stanza.Message, t xmlstream.TokenReadEncoder) error {
-			seenSentinel[m.ID] = true
+			// published as one step: the application acts on what the serve loop did before it
+			vs.Atomically(func() { seenSentinel[m.ID] = true })
 			return nil
 		}
 		var seen strings.Builder
@@ -116,14 +117,14 @@ func kickBody(c *nd.Ctx) nd.Result {
 				}
 				rejoined = true
 			}
-			leaveStarted = true
+			vs.Atomically(func() { leaveStarted = true })
 			env.PeerWrite(`</stream:stream>`)
 			vsess.Wait("serve-done", func() bool { return env.ServeDone })
 			return
 		}
 		if joinErr != nil {
 			vs.SetCanonical(quickTier)
-			leaveStarted = true
+			vs.Atomically(func() { leaveStarted = true })
 			return
 		}
 		env.PeerWrite(selfPresence("unavailable", room.String(), "") + sentinelMsg("k1"))
@@ -148,12 +149,12 @@ func kickBody(c *nd.Ctx) nd.Result {
 				vsess.Wait("late-presence-processed", func() bool { return seenSentinel["k3"] })
 				userAfter = userPresences
 			default:
-				leaveStarted = true
+				vs.Atomically(func() { leaveStarted = true })
 				leaveErr = ch.Leave(ctxL, "bye")
 				leaveReturned = true
 			}
 		}
-		leaveStarted = true
+		vs.Atomically(func() { leaveStarted = true })
 		env.PeerWrite(`</stream:stream>`)
 		vsess.Wait("serve-done", func() bool { return env.ServeDone })
 	})
